@@ -1,0 +1,206 @@
+//! Verification hooks (only compiled with the `verif_hooks` cargo feature).
+//!
+//! Thin public wrappers around crate-internal functions so that an external
+//! verification harness can drive them directly. They contain no logic of
+//! their own and are not part of the supported API.
+
+use std::sync::atomic::{AtomicU64, Ordering};
+use std::sync::Mutex;
+
+use glam::DVec3;
+
+use super::boundary::SimulationBoundary;
+use super::convex_cell::{ConvexCell, WithoutFaces};
+use super::half_space::HalfSpace;
+use super::Dimensionality;
+pub use super::Generator;
+use crate::bounding_sphere::{BoundingSphereSolver, Epos6, Welzl};
+use crate::geometry::{in_sphere_test, in_sphere_test_exact, Sphere};
+use crate::rtree_nn::{build_rtree, nn_iter, wrapping_nn_iter};
+use crate::space::Space;
+
+/// Wrapper around the (crate-private) simulation boundary / integer grid.
+#[derive(Clone)]
+pub struct Grid(SimulationBoundary);
+
+impl Grid {
+    /// Wraps `SimulationBoundary::cuboid` (no normalisation of unused axes).
+    pub fn new(anchor: DVec3, width: DVec3, periodic: bool, dimensionality: Dimensionality) -> Self {
+        Grid(SimulationBoundary::cuboid(anchor, width, periodic, dimensionality))
+    }
+
+    /// Wraps `SimulationBoundary::iloc`.
+    pub fn iloc(&self, loc: DVec3) -> [i64; 3] {
+        self.0.iloc(loc)
+    }
+
+    /// The six wall half spaces.
+    pub fn planes(&self) -> &[HalfSpace] {
+        &self.0.clipping_planes
+    }
+}
+
+/// Wraps `geometry::in_sphere_test_exact`.
+pub fn insphere_exact(a: &[i64; 3], b: &[i64; 3], c: &[i64; 3], d: &[i64; 3], v: &[i64; 3]) -> f64 {
+    in_sphere_test_exact(a, b, c, d, v)
+}
+
+/// Wraps `geometry::in_sphere_test`.
+pub fn insphere_float(a: DVec3, b: DVec3, c: DVec3, d: DVec3, v: DVec3) -> f64 {
+    in_sphere_test(a, b, c, d, v)
+}
+
+/// Wraps `Generator::new` for a whole slice.
+pub fn make_generators(locs: &[DVec3], dimensionality: Dimensionality) -> Vec<Generator> {
+    locs.iter()
+        .enumerate()
+        .map(|(id, &loc)| Generator::new(id, loc, dimensionality))
+        .collect()
+}
+
+/// The sequence of neighbour candidates the cell builder would consume for
+/// generator `query`, drained up to `limit` items.
+pub fn nn_sequence(
+    locs: &[DVec3],
+    query: usize,
+    dimensionality: Dimensionality,
+    periodic: bool,
+    width: DVec3,
+    limit: usize,
+) -> Vec<(usize, Option<DVec3>)> {
+    let generators = make_generators(locs, dimensionality);
+    let rtree = build_rtree(&generators);
+    let loc = generators[query].loc();
+    let iter = if periodic {
+        wrapping_nn_iter(&rtree, loc, width, dimensionality)
+    } else {
+        nn_iter(&rtree, loc)
+    };
+    iter.take(limit).collect()
+}
+
+/// Wraps `ConvexCell::init`.
+pub fn cell_init(loc: DVec3, idx: usize, grid: &Grid) -> ConvexCell<WithoutFaces> {
+    ConvexCell::init(loc, idx, &grid.0)
+}
+
+/// Wraps `ConvexCell::clip_by_plane`.
+pub fn cell_clip(
+    cell: &mut ConvexCell<WithoutFaces>,
+    half_space: HalfSpace,
+    generators: &[Generator],
+    grid: &Grid,
+) {
+    cell.clip_by_plane(half_space, generators, &grid.0)
+}
+
+/// Wraps `ConvexCell::build` (with the same neighbour iterators the tessellation uses).
+pub fn cell_build(
+    idx: usize,
+    generators: &[Generator],
+    periodic: bool,
+    width: DVec3,
+    grid: &Grid,
+) -> ConvexCell<WithoutFaces> {
+    let rtree = build_rtree(generators);
+    let loc = generators[idx].loc();
+    let iter = if periodic {
+        wrapping_nn_iter(&rtree, loc, width, grid.0.dimensionality)
+    } else {
+        nn_iter(&rtree, loc)
+    };
+    ConvexCell::build(loc, idx, generators, iter, &grid.0)
+}
+
+/// The safety radius of a convex cell.
+pub fn cell_safety_radius<M: super::convex_cell::ConvexCellMarker>(cell: &ConvexCell<M>) -> f64 {
+    cell.safety_radius
+}
+
+static EXACT_CALLS: AtomicU64 = AtomicU64::new(0);
+static EXACT_ZEROS: AtomicU64 = AtomicU64::new(0);
+
+#[inline]
+pub(super) fn count_exact(result: f64) {
+    EXACT_CALLS.fetch_add(1, Ordering::Relaxed);
+    if result == 0. {
+        EXACT_ZEROS.fetch_add(1, Ordering::Relaxed);
+    }
+}
+
+/// Number of times the exact predicate was consulted (and returned zero) since the last reset.
+pub fn exact_calls() -> (u64, u64) {
+    (EXACT_CALLS.load(Ordering::Relaxed), EXACT_ZEROS.load(Ordering::Relaxed))
+}
+
+pub fn reset_exact_calls() {
+    EXACT_CALLS.store(0, Ordering::Relaxed);
+    EXACT_ZEROS.store(0, Ordering::Relaxed);
+}
+
+static JITTER_SEED: AtomicU64 = AtomicU64::new(0);
+static COMPLETION_ORDER: Mutex<Vec<usize>> = Mutex::new(Vec::new());
+
+/// Arm (seed != 0) or disarm (seed == 0) the per-cell scheduling jitter.
+pub fn set_jitter(seed: u64) {
+    JITTER_SEED.store(seed, Ordering::SeqCst);
+    COMPLETION_ORDER.lock().unwrap().clear();
+}
+
+/// Order in which cells entered their build closure since jitter was armed.
+pub fn completion_order() -> Vec<usize> {
+    COMPLETION_ORDER.lock().unwrap().clone()
+}
+
+/// Busy-wait of pseudo-random length derived from `(seed, idx)`; no-op unless armed.
+#[inline]
+pub(super) fn jitter(idx: usize) {
+    let seed = JITTER_SEED.load(Ordering::Relaxed);
+    if seed == 0 {
+        return;
+    }
+    let mut x = seed ^ (idx as u64).wrapping_mul(0x9E37_79B9_7F4A_7C15);
+    x ^= x >> 30;
+    x = x.wrapping_mul(0xBF58_476D_1CE4_E5B9);
+    x ^= x >> 27;
+    x = x.wrapping_mul(0x94D0_49BB_1331_11EB);
+    x ^= x >> 31;
+    let spins = x % 20_000;
+    let mut acc = 0u64;
+    for i in 0..spins {
+        acc = acc.wrapping_add(std::hint::black_box(i));
+    }
+    std::hint::black_box(acc);
+    if x & 7 == 0 {
+        std::thread::yield_now();
+    }
+    COMPLETION_ORDER.lock().unwrap().push(idx);
+}
+
+/// Wraps `Space::{new, add_parts, knn}`.
+pub fn space_knn(
+    anchor: DVec3,
+    width: DVec3,
+    max_cell_width: f64,
+    positions: &[DVec3],
+    k: usize,
+) -> Vec<Vec<usize>> {
+    let mut space = Space::new(anchor, width, max_cell_width);
+    space.add_parts(positions);
+    space.knn(k)
+}
+
+/// Wraps `Welzl::bounding_sphere`.
+pub fn welzl(points: &[DVec3]) -> Sphere {
+    Welzl::bounding_sphere(points)
+}
+
+/// Wraps `Epos6::bounding_sphere`.
+pub fn epos6(points: &[DVec3]) -> Sphere {
+    Epos6::bounding_sphere(points)
+}
+
+/// Wraps `Epos6::bounding_sphere_of_spheres`.
+pub fn epos6_spheres(spheres: &[Sphere]) -> Sphere {
+    Epos6::bounding_sphere_of_spheres(spheres)
+}
